@@ -188,7 +188,23 @@ func c15(c *an.Check) {
 	isSum := func(s *an.State, v ssa.Value) bool {
 		return an.ResultCallTo(s.Canon(v), an.R("hash", "HashType", "Sum")) != nil
 	}
-	isStored := func(s *an.State, v ssa.Value) bool { return getterOn(s, v, "hash", "Hash", "GetHash") }
+	hashF, typeF := fv(c, "hash", "Hash", "Hash"), fv(c, "hash", "Hash", "HashType")
+	// the stored digest / type: through the nil-safe getter or as a direct field read
+	isStored := func(s *an.State, v ssa.Value) bool {
+		return getterOn(s, v, "hash", "Hash", "GetHash") || an.IsFieldLoad(s.Canon(v), hashF)
+	}
+	ownerOfType := func(s *an.State, v ssa.Value) ssa.Value {
+		cv := s.Canon(v)
+		if getterOn(s, cv, "hash", "Hash", "GetHashType") {
+			return s.Canon(cv.(*ssa.Call).Call.Args[0])
+		}
+		if an.IsFieldLoad(cv, typeF) {
+			if fa, ok := cv.(*ssa.UnOp).X.(*ssa.FieldAddr); ok {
+				return s.Canon(fa.X)
+			}
+		}
+		return nil
+	}
 	c.Gate(an.GateSpec{Construct: "hash.Hash.VerifyData success-return", Fn: vd, Sink: successReturn, Reqs: []an.Req{
 		an.CallOK("HashType.Sum ok", an.R("hash", "HashType", "Sum")),
 		an.Req{Name: "bytes.Equal(computed, stored) is true", Holds: func(s *an.State, at ssa.Instruction) bool {
@@ -235,14 +251,19 @@ func c15(c *an.Check) {
 			}},
 			an.Req{Name: "types equal and digests equal", Holds: func(s *an.State, at ssa.Instruction) bool {
 				typeEq := s.AnyFact(func(s *an.State, x, y ssa.Value, r an.Rel) bool {
-					return r == an.EQ && getterOn(s, x, "hash", "Hash", "GetHashType") && getterOn(s, y, "hash", "Hash", "GetHashType") &&
-						s.Canon(x.(*ssa.Call).Call.Args[0]) != s.Canon(y.(*ssa.Call).Call.Args[0])
+					ox, oy := ownerOfType(s, x), ownerOfType(s, y)
+					return r == an.EQ && ox != nil && oy != nil && ox != oy
 				})
 				if !typeEq {
 					return false
 				}
 				for _, call := range an.Calls(ch, an.X("bytes", "", "Equal")) {
-					if s.IsTrue(call) && isStored(s, call.Call.Args[0]) && isStored(s, call.Call.Args[1]) {
+					// known true on the path, or the verdict returned IS the comparison's result
+					fwd := false
+					if ret, ok := at.(*ssa.Return); ok && len(ret.Results) == 1 && s.Key(s.RetVal(ret, 0)) == s.Key(call) {
+						fwd = true
+					}
+					if (s.IsTrue(call) || fwd) && isStored(s, call.Call.Args[0]) && isStored(s, call.Call.Args[1]) {
 						return true
 					}
 				}
@@ -257,6 +278,25 @@ func c15(c *an.Check) {
 		if ok {
 			sc := an.ResultCallTo(nh[0].Call.Args[1], an.R("hash", "HashType", "Sum"))
 			ok = an.IsParam(sc.Call.Args[0], 0) && an.IsParam(sc.Call.Args[1], 1)
+		}
+		if !ok && len(nh) == 0 {
+			// the constructor written out: &Hash{HashType: ht, Hash: ht.Sum(data)}
+			var tOK, dOK bool
+			nW := 0
+			for _, a := range p.FieldAccesses(typeF, []*ssa.Function{sm}) {
+				if a.Kind == an.Write {
+					nW++
+					tOK = an.IsParam(a.Val, 0)
+				}
+			}
+			for _, a := range p.FieldAccesses(hashF, []*ssa.Function{sm}) {
+				if a.Kind == an.Write {
+					nW++
+					sc := an.ResultCallTo(a.Val, an.R("hash", "HashType", "Sum"))
+					dOK = sc != nil && an.IsParam(sc.Call.Args[0], 0) && an.IsParam(sc.Call.Args[1], 1)
+				}
+			}
+			ok = nW == 2 && tOK && dOK
 		}
 		c.Require(ok, "PROVENANCE", "hash.Sum records the type it hashed with", sm, "", len(nh), "NewHash(ht, ht.Sum(data))", "the returned Hash does not pair the digest with the type used to compute it")
 	}
